@@ -476,6 +476,12 @@ def xml_canon(elem):
     return (elem.tag, tuple(sorted(elem.attrib.items())), (elem.text or "").strip(), tuple(xml_canon(c) for c in elem))
 
 
+class HistoryCallRaised(Exception):
+    def __init__(self, call, override, error, wtml_left):
+        Exception.__init__(self, error)
+        self.call, self.override, self.error, self.wtml_left = call, override, error, wtml_left
+
+
 def run_history(mode, flags, W, tag, default_outdir=False):
     """Call toasty.tile_fits along one history; observe after every call.
     default_outdir: leave out_dir to tile_fits (a directory next to the input file)."""
@@ -515,10 +521,13 @@ def run_history(mode, flags, W, tag, default_outdir=False):
     fits_tiler.FitsTiler.tile = wrapped
     try:
         for ov in flags:
-            if default_outdir:
-                od, b = quiet(tile_fits, src, tiling_method=method, parallel=1, override=bool(ov))
-            else:
-                od, b = quiet(tile_fits, src, out_dir=out_dir, tiling_method=method, parallel=1, override=bool(ov))
+            try:
+                if default_outdir:
+                    od, b = quiet(tile_fits, src, tiling_method=method, parallel=1, override=bool(ov))
+                else:
+                    od, b = quiet(tile_fits, src, out_dir=out_dir, tiling_method=method, parallel=1, override=bool(ov))
+            except Exception as e:  # noqa: a call of this history raised: nothing is returned, the directory may be gone
+                raise HistoryCallRaised(len(obs), bool(ov), repr(e), os.path.exists(os.path.join(out_dir, "index_rel.wtml")))
             imgset, place = read_wtml(od)
             returned = describe(b.imgset, b.place, pristine)
             ondisk = describe(imgset, place, pristine)
@@ -527,7 +536,9 @@ def run_history(mode, flags, W, tag, default_outdir=False):
             buf = io.BytesIO()
             write_xml_doc(b.create_wtml_folder(add_place_for_toast=True).to_xml(), dest_stream=buf, dest_wants_bytes=True)
             same_xml = xml_canon(ET.fromstring(buf.getvalue())) == xml_canon(ET.parse(os.path.join(od, "index_rel.wtml")).getroot())
-            obs.append(dict(returned=returned, wtml=ondisk, returns_self=rets[-1], same_xml=same_xml, out_dir=od))
+            fg = b.place.foreground_image_set
+            linked = fg is b.imgset or (fg is not None and describe(fg, None) == describe(b.imgset, None))
+            obs.append(dict(returned=returned, wtml=ondisk, returns_self=rets[-1], same_xml=same_xml and linked, out_dir=od))
     finally:
         fits_tiler.FitsTiler.tile = orig
     return out_dir, obs
@@ -554,8 +565,12 @@ def run_history_noplace(flags, W, tag):
         write_xml_doc(b.create_wtml_folder(add_place_for_toast=False).to_xml(), dest_stream=buf, dest_wants_bytes=True)
         same_xml = xml_canon(ET.fromstring(buf.getvalue())) == xml_canon(
             ET.parse(os.path.join(out_dir, "index_rel.wtml")).getroot())
+        # the Place of the returned builder (what create_wtml_folder(add_place_for_toast=True) would write)
+        # must carry the same image set description
+        fg = b.place.foreground_image_set
+        linked = fg is b.imgset or (fg is not None and describe(fg, None) == describe(b.imgset, None))
         obs.append(dict(returned=describe(b.imgset, None), wtml=describe(imgset, None), returns_self=r is tiler,
-                        same_xml=same_xml))
+                        same_xml=same_xml and linked, place_linked=linked))
     return out_dir, obs
 
 
@@ -638,12 +653,26 @@ def run(ctx, V):
         plan.insert(0, (rep_case["mode"], list(rep_case["history"])))
     for mode, h in plan:
         tag = "".join(str(f) for f in h)
-        out_dir, obs = run_history(mode, h, W, tag)
+        try:
+            out_dir, obs = run_history(mode, h, W, tag)
+        except HistoryCallRaised as e:
+            V.disagreement("C17 predicate: every call of a tile_fits history returns a description that matches the files on disk",
+                           dict(part="history", mode=mode, history=h),
+                           dict(call=e.call, expected="tile_fits returns (out_dir, builder)"),
+                           dict(call=e.call, override=e.override, raised=e.error, index_rel_wtml_still_there=e.wtml_left), True)
+            continue
         hists.append((mode, h, out_dir, obs))
     # the same histories with out_dir left to tile_fits (default directory next to the input)
     for mode, h in [("TAN", [0, 0]), ("TAN", [0, 1, 0]), ("TOAST", [0, 0])]:
         tag = "d" + "".join(str(f) for f in h)
-        out_dir, obs = run_history(mode, h, W, tag, default_outdir=True)
+        try:
+            out_dir, obs = run_history(mode, h, W, tag, default_outdir=True)
+        except HistoryCallRaised as e:
+            V.disagreement("C17 predicate: every call of a tile_fits history returns a description that matches the files on disk",
+                           dict(part="history", mode=mode, history=h, default_out_dir=True),
+                           dict(call=e.call, expected="tile_fits returns (out_dir, builder)"),
+                           dict(call=e.call, override=e.override, raised=e.error), True)
+            continue
         hists.append((mode, h, out_dir, obs))
     badh = common.coq_eval_sharded(COQ_DEFS, [g_hist(od, h, obs) for (_m, h, od, obs) in hists], "chk_hist", imports,
                                    shard=12, jobs=8, name="c17h")
